@@ -1257,24 +1257,18 @@ func isFastForward(s storer.EncodedObjectStorer, old, newHash plumbing.Hash, sha
 		shallowsSet[sh] = struct{}{}
 	}
 
-	// For each known shallow commit, mark its parent hashes as boundaries so
-	// the walker never tries to load commits that are not stored locally.
-	parentsToIgnore := make([]plumbing.Hash, 0, len(shallows))
-	for _, sh := range shallows {
-		shallowCommit, err := object.GetCommit(s, sh)
-		if err != nil {
-			if errors.Is(err, plumbing.ErrObjectNotFound) {
-				// Shallow marker may reference a commit we no longer have; skip.
-				continue
-			}
-			return false, err
-		}
-		parentsToIgnore = append(parentsToIgnore, shallowCommit.ParentHashes...)
+	// A shallow commit is a boundary: its parents are not followed (they may not
+	// be stored locally). Only the edges below the shallow commit are cut - a
+	// parent that is also reachable through ordinary history is still visited,
+	// exactly as git does when it grafts the shallow commits.
+	var isBoundary object.CommitFilter = func(c *object.Commit) bool {
+		_, ok := shallowsSet[c.Hash]
+		return ok
 	}
 
 	found := false
 	boundedByShallow := false
-	iter := object.NewCommitPreorderIter(c, nil, parentsToIgnore)
+	iter := object.NewFilterCommitIter(c, nil, &isBoundary)
 	err = iter.ForEach(func(c *object.Commit) error {
 		if _, isShallow := shallowsSet[c.Hash]; isShallow {
 			// The walk reached a shallow commit; history is truncated here.
